@@ -120,7 +120,7 @@ def periodicity_mismatches(case, limit=3):
 
 def budget(tier):
     if tier == 'quick':
-        return {'max_examples': 720, 'shards': 8, 'time_budget': 110}
+        return {'max_examples': 1440, 'shards': 16, 'time_budget': 110}
     return {'max_examples': 24000, 'shards': 16, 'time_budget': 1800}
 
 
